@@ -82,7 +82,7 @@ func c09ScenarioWith(store, pre string, nChecks int, bound int, ans *world.Answe
 					var viols []schedx.Violation
 					var obs strings.Builder
 					lo := ths[0]
-					logoutAnswered := withLogout && ans == nil && !lo.Res.OK && lo.Res.HTTPStatus == 302 && lo.Res.Location == world.LogoutRedirect
+					logoutAnswered := withLogout && ans == nil && !lo.Res.OK && world.IsRedirect(lo.Res.HTTPStatus) && lo.Res.Location == world.LogoutRedirect
 					fmt.Fprintf(&obs, "logout(code=%v http=%d)@%d", lo.Res.Code, lo.Res.HTTPStatus, lo.RetStep)
 					// which effective writes under sid came after the logout's RemoveSession
 					writer := ""
@@ -150,8 +150,8 @@ func c09SeqMonitor(run *ev.Run, spec world.Spec) hMonitor {
 				}
 			}
 		}
-		isLogoutRedirect := !o.Res.OK && o.Res.HTTPStatus == 302 && o.Res.Location == h.W.ExpectedLogoutRedirect()
-		if !o.Res.OK && o.Res.HTTPStatus == 302 && !isLogoutRedirect && !removeFailed && o.AuthzLoc == "" {
+		isLogoutRedirect := !o.Res.OK && world.IsRedirect(o.Res.HTTPStatus) && o.Res.Location == h.W.ExpectedLogoutRedirect()
+		if !o.Res.OK && world.IsRedirect(o.Res.HTTPStatus) && !isLogoutRedirect && !removeFailed && o.AuthzLoc == "" {
 			run.Violation("C09 logout-redirects-to-wrong-end-session-uri", fmt.Sprintf("logout redirected to %q, expected the configured (or, when none is configured, the discovered) end-session URI %q", o.Res.Location, h.W.ExpectedLogoutRedirect()), c01Replay{Spec: spec, History: full})
 			return
 		}
